@@ -290,17 +290,17 @@ func c07Run(ctx *Ctx, t *tape.Tape) *report.Violation {
 	z1 := &world.RecRaster{}
 	var r1 render.Renderer
 	r1.SetRasterizer(z1, tp.rect)
-	t1 := world.Target{Dst: wrapLog(&r1, tp.logDirect, tp.altLogStyle)}
+	t1 := world.Target{Dst: wrapLog(&r1, tp.logDirect, tp.altLogStyle), Adjs: map[float32]uint8{}}
 	// party 2: Encoder
 	var e encode.Encoder
 	if tp.reuseEnc {
 		dirty := world.GenProgram(t, world.GenCfg{MaxItems: 4, EncOnly: true, Dirty: true})
 		world.Run(world.Target{Dst: &e, Enc: &e}, dirty[:biasedCut(t, dirty)])
 	}
-	t2 := world.Target{Dst: wrapLog(&e, tp.logEncoder, tp.altLogStyle), Enc: &e}
+	t2 := world.Target{Dst: wrapLog(&e, tp.logEncoder, tp.altLogStyle), Enc: &e, Adjs: map[float32]uint8{}}
 	// a plain recorder fed directly: the reference call log
 	d1 := &world.RecDest{}
-	t3 := world.Target{Dst: d1}
+	t3 := world.Target{Dst: d1, Adjs: map[float32]uint8{}}
 
 	m := &model.EncoderModel{}
 	sawIncr, nontrivial := false, false
@@ -449,7 +449,7 @@ func classOfAbstract(o *world.Op) (model.Class, uint8, bool) {
 	switch o.K {
 	case world.KReadBackC, world.KReadBackN, world.KGradLinear, world.KGradCircular, world.KGradElliptical, world.KGradRaw:
 		return model.ClsSelector, 0, false
-	case world.KPathData, world.KMDPath:
+	case world.KPathData, world.KMDPath, world.KMDIcon:
 		return model.ClsSelector, 0, false // starts and ends its own path: net effect none
 	}
 	return classOf(o)
